@@ -43,6 +43,7 @@ def main():
         try:
             if rr:
                 rr.install()
+                rr.install_vec()
             ns = dict(base_ns)
             try:
                 exec(spec['code'], ns)
@@ -56,7 +57,7 @@ def main():
                     res['R'] = [vd.dump_expr(vform, vform.as_expr(r), [max_nodes]) for r in ns['R']]
                 except vd.TooBig:
                     res['status'] = 'TooBig'
-            V = ns.get('V')
+            V = ns.get('V') if 'R' not in ns else None
             if V is not None and res['status'] == 'Ok':
                 res['header'] = vd.form_header(V)
                 tr = vd.Tracer(vform, V, max_nodes=max_nodes)
